@@ -160,6 +160,59 @@ func runC19(p *engine.Prog, r *engine.Report) {
 				}
 			}
 		}
+		// variables declared outside the loop that are updated through a call inside it (pointer receiver or
+		// argument) and also read inside it: the next replica sees what the previous one left
+		for _, in := range allInstrs(fn) {
+			al, ok := in.(*ssa.Alloc)
+			if !ok || loop.blocks[al.Block().Index] || al.Comment == "err" || strings.HasPrefix(al.Comment, "~r") || al.Comment == "" {
+				continue
+			}
+			var writers, readers []string
+			var visit func(v ssa.Value, depth int)
+			visit = func(v ssa.Value, depth int) {
+				if depth > 3 || v.Referrers() == nil {
+					return
+				}
+				for _, rr := range *v.Referrers() {
+					if !loop.blocks[rr.Block().Index] {
+						continue
+					}
+					switch rr := rr.(type) {
+					case *ssa.FieldAddr:
+						visit(rr, depth+1)
+					case *ssa.IndexAddr:
+						visit(rr, depth+1)
+					case *ssa.Store:
+						if rr.Addr == v && depth > 0 {
+							writers = append(writers, "store at "+p.Rel(rr.Pos()))
+						}
+					case *ssa.UnOp:
+						readers = append(readers, p.Rel(rr.Pos()))
+					case ssa.CallInstruction:
+						callee := rr.Common().StaticCallee()
+						w := false
+						for i, a := range rr.Common().Args {
+							if a == v && (callee == nil || callee.Blocks == nil || writesThroughParam(callee, i, 0)) {
+								w = true
+							}
+						}
+						name := "a call"
+						if callee != nil {
+							name = engine.FuncName(callee)
+						}
+						if w {
+							writers = append(writers, name+" at "+p.Rel(rr.Pos()))
+						} else {
+							readers = append(readers, name+" at "+p.Rel(rr.Pos()))
+						}
+					}
+				}
+			}
+			visit(al, 0)
+			if len(writers) > 0 && len(readers) > 0 {
+				probs = append(probs, "variable "+al.Comment+" declared outside the loop is updated inside it ("+writers[0]+") and read inside it ("+readers[0]+")")
+			}
+		}
 		r.Check(len(probs) == 0, "R19.2-no-carried-state", ck+": loop-carried values", "replica loop header in "+engine.FuncName(fn), "only the range index and the merged status view are carried across iterations", strings.Join(probs, "; "))
 
 		// R19.2 writes to Coordinator state / package variables reachable from the body
@@ -326,4 +379,49 @@ func controlsC19(p *engine.Prog) []Control {
 		return off(call.Pos()), off(call.End()), recv + ".lastGlobalScrapeStatus[" + arg + "]", true
 	})
 	return []Control{c1, c2}
+}
+
+// writesThroughParam: fn may store through its parameter idx (directly, through a field or element of
+// what it points to, or by handing it to a function that does).
+func writesThroughParam(fn *ssa.Function, idx int, depth int) bool {
+	if fn == nil || fn.Blocks == nil {
+		return true
+	}
+	if depth > 3 || idx >= len(fn.Params) {
+		return true
+	}
+	var through func(v ssa.Value, d int) bool
+	through = func(v ssa.Value, d int) bool {
+		if d > 4 || v.Referrers() == nil {
+			return false
+		}
+		for _, rr := range *v.Referrers() {
+			switch rr := rr.(type) {
+			case *ssa.FieldAddr:
+				if through(rr, d+1) {
+					return true
+				}
+			case *ssa.IndexAddr:
+				if through(rr, d+1) {
+					return true
+				}
+			case *ssa.Store:
+				if rr.Addr == v {
+					return true
+				}
+			case *ssa.MapUpdate:
+				if rr.Map == v {
+					return true
+				}
+			case ssa.CallInstruction:
+				for i, a := range rr.Common().Args {
+					if a == v && writesThroughParam(rr.Common().StaticCallee(), i, depth+1) {
+						return true
+					}
+				}
+			}
+		}
+		return false
+	}
+	return through(fn.Params[idx], 0)
 }
